@@ -837,7 +837,8 @@ class Builder:
                 self.dangling = [(branch, 'alt')]
             else:
                 self.dangling = starts
-            ends.extend(self._inline(e, t, frame, res))
+            ends.extend(self._inline(getattr(res, 'via', None) or e, t,
+                                     frame, res))
         if rest or res.externals:
             self.dangling = [(branch, 'alt')] if branch is not None \
                 else starts
@@ -852,11 +853,39 @@ class Builder:
             ends.append((n, 'next'))
         self.dangling = ends
 
+    @staticmethod
+    def _copy_res(r):
+        out = Resolution()
+        out.targets = list(r.targets)
+        out.externals = list(r.externals)
+        out.unresolved = r.unresolved
+        out.ctor_of = list(r.ctor_of)
+        return out
+
     def _resolve(self, e: ast.Call, frame) -> Resolution:
         """resolve_call, plus calls of a parameter of an inlined callee
         that was bound to a function at the call site (a nested function of
         the caller, or a bound method such as self.client.ehlo)"""
         res = self.r.resolve_call(e, frame.ctx)
+        if not res.targets and any(x.endswith('with_timeout')
+                                   for x in res.externals) and \
+                len(e.args) >= 2:
+            # gevent.with_timeout(seconds, fn, *args): fn runs under the
+            # timeout; follow fn
+            kw = [k for k in e.keywords if k.arg != 'timeout_value']
+            synth = ast.Call(func=e.args[1], args=list(e.args[2:]),
+                             keywords=kw)
+            ast.copy_location(synth, e)
+            synth._via_with_timeout = e
+            try:
+                r2 = self._resolve(synth, frame)
+            except Exception:
+                r2 = None
+            if r2 is not None and r2.targets:
+                r2 = self._copy_res(r2)
+                r2.via = synth
+                return r2
+            return res
         if (res.targets or res.externals) and not res.unresolved:
             return res
         f = e.func
